@@ -981,6 +981,13 @@ def rule_filter_polarities(ctx, rep: Report, rid="Q5"):
                 if holds is None:
                     continue
                 pol_ok = holds if any(s_ in [y for b in st.body for y in ast.walk(b)] for s_ in stores) else not holds
+                a1, b1 = (1, b_) if is_len(l_) else (a_, 1)
+                holds1 = {ast.Gt: a1 > b1, ast.GtE: a1 >= b1, ast.Lt: a1 < b1, ast.LtE: a1 <= b1, ast.Eq: a1 == b1, ast.NotEq: a1 != b1}.get(type(op_))
+                single_ok = (not holds1) if any(s_ in [y for b in st.body for y in ast.walk(b)] for s_ in stores) else holds1
+                rep.add(rid, "overload counter:not engaged for a single candidate", bool(single_ok),
+                        f"`{unparse(cmp_)}` lets the counter run when only one member matches: a second binding with the same class, method and "
+                        f"parameter names (another instantiation of a templated method, say) is handed index 1, which does not exist, and gets no text",
+                        f"{ci.mod.rel}:{st.lineno}")
                 rep.add(rid, "overload counter:engaged for two indistinguishable candidates", pol_ok,
                         f"`{unparse(cmp_)}` guards the counter and is false for two candidates: both requests for a pair of overloads with the "
                         f"same parameter names get overload 0 - the second binding carries the first one's documentation", f"{ci.mod.rel}:{st.lineno}")
@@ -1214,3 +1221,80 @@ def rule_counter_key_identity(ctx, rep: Report, rid="Q8"):
                         work.append((fn, up))
     if n < 6:
         raise AnalysisError(f"{rep.prop}/{rid}: only {n} key components traced")
+
+
+def rule_empty_docstring_exactly_when_nothing_to_document(ctx, rep: Report, rid="Q4"):
+    """extract_docstring answers '' before formatting exactly when there is no candidate or the overload index is past
+    the candidates - never for a member that can be documented.  The early-return guard is read as a boolean function of
+    two facts (the candidate list is non-empty; index < len(list)) and compared row by row with `empty or out of range`."""
+    import itertools
+    prog = ctx.prog
+    ci = prog.cls("XMLDocParser")
+    fn = prog.method("XMLDocParser", "extract_docstring")
+    loc = f"{ci.mod.rel}:{fn.lineno}"
+    subs = [s_ for s_ in walk_no_nested(fn) if isinstance(s_, ast.Subscript) and isinstance(s_.value, ast.Name) and not isinstance(s_.slice, (ast.Constant, ast.Slice))]
+    if not subs:
+        raise AnalysisError("extract_docstring: indexed candidate list not found")
+    seq, idx = subs[0].value.id, unparse(subs[0].slice)
+    guards = []
+    for st in fn.body:
+        if isinstance(st, ast.If) and not st.orelse and st.body and isinstance(st.body[-1], ast.Return) and isinstance(st.body[-1].value, ast.Constant) \
+                and st.body[-1].value.value == "" and st.lineno < subs[0].lineno:
+            names = {x.id for x in ast.walk(st.test) if isinstance(x, ast.Name)}
+            if seq in names:
+                guards.append(st.test)
+
+    class U(Exception):
+        pass
+
+    def ev(e, env):
+        if isinstance(e, ast.BoolOp):
+            vs = [ev(v, env) for v in e.values]
+            return any(vs) if isinstance(e.op, ast.Or) else all(vs)
+        if isinstance(e, ast.UnaryOp) and isinstance(e.op, ast.Not):
+            return not ev(e.operand, env)
+        if isinstance(e, ast.Name) and e.id == seq:
+            return env["nonempty"]
+        if isinstance(e, ast.Compare) and len(e.ops) == 1:
+            l, r, op = unparse(e.left).replace(" ", ""), unparse(e.comparators[0]).replace(" ", ""), e.ops[0]
+            ln = f"len({seq})"
+            if l == idx and r == ln:
+                return {ast.Lt: env["inrange"], ast.GtE: not env["inrange"]}.get(type(op), None) if type(op) in (ast.Lt, ast.GtE) else _raise(U())
+            if l == ln and r == idx:
+                return {ast.Gt: env["inrange"], ast.LtE: not env["inrange"]}.get(type(op), None) if type(op) in (ast.Gt, ast.LtE) else _raise(U())
+            if l == ln and r == "0":
+                return {ast.Eq: not env["nonempty"], ast.NotEq: env["nonempty"], ast.Gt: env["nonempty"]}.get(type(op)) if type(op) in (ast.Eq, ast.NotEq, ast.Gt) else _raise(U())
+        raise U()
+
+    def _raise(x):
+        raise x
+    try:
+        bad = []
+        for ne, ir in itertools.product([False, True], repeat=2):
+            if not ne and ir:
+                continue            # an empty list has no index in range
+            env = {"nonempty": ne, "inrange": ir}
+            got = any(ev(g, env) for g in guards)
+            want = (not ne) or (not ir)
+            if got != want:
+                bad.append(env)
+        rep.add(rid, "extract_docstring:answers '' exactly when there is no candidate or the index is past the candidates", bool(guards) and not bad,
+                f"guard(s) {[unparse(g) for g in guards]} decide differently for {bad}: a member that has documentation gets none, or the list is indexed "
+                f"out of range", loc)
+    except U:
+        rep.add(rid, "extract_docstring:answers '' exactly when there is no candidate or the index is past the candidates", True,
+                f"not decided: guard(s) {[unparse(g) for g in guards]} contain a test this rule does not interpret", loc, nontrivial=False)
+    # what filter_member_defs hands back besides the candidates is filled, not just created
+    ff = prog.method("XMLDocParser", "filter_member_defs")
+    rets = [r.value for r in walk_no_nested(ff) if isinstance(r, ast.Return) and isinstance(r.value, ast.Tuple)]
+    for r in rets[-1:]:
+        for el in r.elts:
+            if isinstance(el, ast.Name):
+                inits = [st for st in ff.body if isinstance(st, ast.Assign) and unparse(st.targets[0]) == el.id and isinstance(st.value, ast.List) and not st.value.elts]
+                if not inits:
+                    continue
+                filled = any(isinstance(c, ast.Call) and isinstance(c.func, ast.Attribute) and c.func.attr in ("append", "extend") and unparse(c.func.value) == el.id
+                             for c in ast.walk(ff)) or any(isinstance(a, ast.AugAssign) and unparse(a.target) == el.id for a in ast.walk(ff))
+                rep.add(rid, f"filter_member_defs:`{el.id}` handed back to the caller is filled in the loop", filled,
+                        f"`{el.id}` is created empty and returned empty: what the caller was to learn (e.g. which optional parameters to leave out of "
+                        f"the text) is lost", f"{ci.mod.rel}:{ff.lineno}")
